@@ -1,6 +1,7 @@
 import Log4rsModel.EnvExpand.LemmasStr
 /-
-C19: the name scanner, and the byte-offset model `expand_unfixed` reduced to a fold over the occurrences of
+C19: the name scanner (shared by the current and the historical code), the explicit bounds of the
+slices at an occurrence, and the byte-offset model of the HISTORICAL code `expand_unfixed` reduced to a fold over the occurrences of
 `$ENV{` on characters (`expandChars`). Every `split_at` / slice the code takes is shown to succeed.
 -/
 namespace Log4rs.EnvExpand
@@ -125,7 +126,7 @@ theorem scanRef_eq_refAt (alnum : Char → Bool) (t : Text) : scanRef alnum t = 
 
 /-! ### the loop body on characters -/
 
-/-- one iteration of the `for` loop (current code), `tail` = the text after this `$ENV{` -/
+/-- one iteration of the `for` loop (historical code `expand_unfixed`), `tail` = the text after this `$ENV{` -/
 def stepChars (alnum : Char → Bool) (env : Env) (out tail : Text) : Text :=
   match scanRef alnum tail with
   | none => out
